@@ -31,6 +31,7 @@ import (
 	rpcfilters "github.com/EscanBE/evermint/v12/rpc/namespaces/ethereum/eth/filters"
 	"github.com/EscanBE/evermint/v12/rpc/types"
 	"github.com/EscanBE/evermint/v12/server/config"
+	"github.com/EscanBE/evermint/v12/utils/verifhook"
 	evmtypes "github.com/EscanBE/evermint/v12/x/evm/types"
 )
 
@@ -152,6 +153,8 @@ type wsConn struct {
 func (w *wsConn) WriteJSON(v interface{}) error {
 	w.mux.Lock()
 	defer w.mux.Unlock()
+	verifhook.At("ws", "w.locked", w)
+	defer verifhook.At("ws", "w.done", w)
 
 	return w.conn.WriteJSON(v)
 }
@@ -159,6 +162,8 @@ func (w *wsConn) WriteJSON(v interface{}) error {
 func (w *wsConn) Close() error {
 	w.mux.Lock()
 	defer w.mux.Unlock()
+	verifhook.At("ws", "c.locked", w)
+	defer verifhook.At("ws", "c.done", w)
 
 	return w.conn.Close()
 }
@@ -172,16 +177,19 @@ func (w *wsConn) ReadMessage() (messageType int, p []byte, err error) {
 func (s *websocketsServer) readLoop(wsConn *wsConn) {
 	// subscriptions of current connection
 	subscriptions := make(map[rpc.ID]pubsub.UnsubscribeFunc)
+	verifhook.At("ws", "open", wsConn)
 	defer func() {
 		// cancel all subscriptions when connection closed
 		// #nosec G705
 		for _, unsubFn := range subscriptions {
 			unsubFn()
 		}
+		verifhook.At("ws", "exit", wsConn)
 	}()
 
 	for {
 		_, mb, err := wsConn.ReadMessage()
+		verifhook.At("ws", "read", wsConn, err == nil)
 		if err != nil {
 			_ = wsConn.Close() // #nosec G703
 			s.logger.Error("read message error, breaking read loop", "error", err.Error())
@@ -270,6 +278,7 @@ func (s *websocketsServer) readLoop(wsConn *wsConn) {
 			if ok {
 				delete(subscriptions, subID)
 				unsubFn()
+				verifhook.At("ws", "unsubscribed", wsConn, subID)
 			}
 
 			res := &SubscriptionResponseJSON{
@@ -334,6 +343,7 @@ func (s *websocketsServer) tcpGetAndSendResponse(wsConn *wsConn, mb []byte) erro
 		return errors.Wrap(err, "failed to unmarshal rest-server response")
 	}
 
+	verifhook.At("ws", "forwarded", wsConn)
 	return wsConn.WriteJSON(wsSend)
 }
 
@@ -387,6 +397,7 @@ func (api *pubSubAPI) subscribeNewHeads(wsConn *wsConn, subID rpc.ID) (pubsub.Un
 	// TODO: use events
 	baseFee := big.NewInt(ethparams.InitialBaseFee)
 
+	verifhook.At("ws", "start", wsConn, subID)
 	go func() {
 		headersCh := sub.Event()
 		errCh := sub.Err()
@@ -415,6 +426,7 @@ func (api *pubSubAPI) subscribeNewHeads(wsConn *wsConn, subID rpc.ID) (pubsub.Un
 					},
 				}
 
+				verifhook.At("ws", "notify", wsConn, subID)
 				err = wsConn.WriteJSON(res)
 				if err != nil {
 					api.logger.Error("error writing header, will drop peer", "error", err.Error())
@@ -560,6 +572,7 @@ func (api *pubSubAPI) subscribeLogs(wsConn *wsConn, subID rpc.ID, extra interfac
 		return nil, err
 	}
 
+	verifhook.At("ws", "start", wsConn, subID)
 	go func() {
 		ch := sub.Event()
 		errCh := sub.Err()
@@ -603,6 +616,7 @@ func (api *pubSubAPI) subscribeLogs(wsConn *wsConn, subID rpc.ID, extra interfac
 						},
 					}
 
+					verifhook.At("ws", "notify", wsConn, subID)
 					err = wsConn.WriteJSON(res)
 					if err != nil {
 						try(func() {
@@ -630,6 +644,7 @@ func (api *pubSubAPI) subscribePendingTransactions(wsConn *wsConn, subID rpc.ID)
 		return nil, errors.Wrap(err, "error creating block filter: %s")
 	}
 
+	verifhook.At("ws", "start", wsConn, subID)
 	go func() {
 		txsCh := sub.Event()
 		errCh := sub.Err()
@@ -659,6 +674,7 @@ func (api *pubSubAPI) subscribePendingTransactions(wsConn *wsConn, subID rpc.ID)
 						},
 					}
 
+					verifhook.At("ws", "notify", wsConn, subID)
 					err = wsConn.WriteJSON(res)
 					if err != nil {
 						api.logger.Debug("error writing header, will drop peer", "error", err.Error())
